@@ -21,7 +21,7 @@ COMPONENTS = {
 ASSUMPTIONS = ['pre-emption granularity: replicat source lines and synchronisation primitives',
                'source files do not change during the snapshot']
 PROBES = ['target_write_failed', 'queue_full', 'producer_put_timed_out', 'worker_polled_empty', 'exists_true', 'restore_lock_contended',
-          'stalled_call', 'fail_injected', 'snapshot_failed_then_restore']
+          'stalled_call', 'fail_injected', 'snapshot_failed_then_restore', 'command_task_cancelled', 'cancel_cancelled']
 SHRINK_SEEDS = 16     # a race needs luck again after the workload changed
 TIERS = {'quick': {'budget_s': 75, 'batch': 20}, 'thorough': {'budget_s': 900, 'batch': 40}}
 
@@ -52,6 +52,9 @@ def gen_case(seed, tier):
     return {
         'seed': seed,
         'sched_seed': seed,
+        # the command's task is cancelled (Ctrl-C under asyncio.run, a time-out of the embedding program) after some backend calls
+        'cancel': (None if fail else (substream(seed, 'c09-cancel').choice(['snapshot', 'restore']), substream(seed, 'c09-cancel2').randrange(0, 25)))
+                  if substream(seed, 'c09-cancel0').random() < 0.1 else None,
         # a failing snapshot immediately followed by a restore through the same Repository object
         'followup': bool(fail) and fail['phase'] == 'snapshot' and substream(seed, 'c09-followup').random() < 0.6,
         'settings': settings,
@@ -155,7 +158,71 @@ def run_followup(case):
         W.close()
 
 
+def run_cancel(case):
+    """The task running snapshot (or restore) is cancelled once the backend has seen k calls: the command ends
+    (CancelledError or, if it was faster, its result) within the step and time caps, and every slot comes back."""
+    import asyncio
+    from pathlib import Path
+    viol, probes = [], {'command_task_cancelled': 1}
+    phase, k = case['cancel']
+    W = harness.World(case['sched_seed'], 'c09c', flavour=case['flavour'], lat_kind=case['lat_kind'], lat=case['lat'], list_order=case['list_order'])
+    try:
+        src = W.dir / 'src'
+        gen.materialize(src, case['tree'])
+        extra = src / 'many-chunks.bin'
+        extra.write_bytes(substream(case['sched_seed'], 'cancel-data').randbytes(45 * case['N'] * case['settings']['chunking']['max_length']))
+        os.utime(extra, ns=(10**18, 10**18))
+        N = case['N']
+        enc = case['settings'].get('encryption') is not None
+        client = world.Client('u', password=b'correct horse' if enc else None, concurrent=N)
+        seq = world.SchedOpts.sequential()
+        zero = lambda: W.profile(lat_kind='zero', list_order='sorted')     # noqa
+        r0 = W.init(client, case['settings'], seq, profile=zero())
+        if phase == 'restore':
+            s1 = W.snapshot(client, [src], seq, profile=zero())
+        for name, rr in (('init', r0),) + ((('snapshot', s1),) if phase == 'restore' else ()):
+            if not rr.ok:
+                viol.append({'cls': 'spurious-error' if rr.hang is None else 'hang', 'sig': {'phase': name, 'run': 'sequential'},
+                             'msg': f'sequential fault-free {name} failed: {rr.outcome()} {rr.exc or rr.hang!r}'})
+                return _result(W, viol, probes, case)
+
+        async def act(repo):
+            if phase == 'snapshot':
+                t = asyncio.ensure_future(repo.snapshot(paths=[Path(src)]))
+            else:
+                t = asyncio.ensure_future(repo.restore(path=Path(W.dir / 'out')))
+            pause = 0.0002
+            while repo.backend.calls < k and not t.done():
+                await asyncio.sleep(pause)
+                pause = min(pause * 1.5, 0.5)       # (a stalled backend call must not turn this loop into the step cap)
+            if t.done():
+                await t
+                return 'completed'
+            t.cancel()
+            try:
+                await t
+                return 'completed'
+            except asyncio.CancelledError:
+                return 'cancelled'
+        r = W.run(client, act, world.SchedOpts.from_dict(case['opts']), profile=W.profile(lat_cap=60.0))
+        if r.hang is not None:
+            viol.append({'cls': 'hang', 'sig': {'phase': phase, 'cancelled': True}, 'msg': f'{phase} cancelled after {k} backend calls did not terminate: {r.hang}'})
+        elif r.exc is not None:
+            viol.append({'cls': 'spurious-error', 'sig': {'phase': phase, 'cancelled': True, 'exc': type(r.exc).__name__},
+                         'msg': f'{phase} cancelled after {k} backend calls raised {r.exc!r}'})
+        else:
+            probes['cancel_' + r.value] = 1
+            if r.repo is not None and r.repo._slots.qsize() != N:
+                viol.append({'cls': 'slots-leaked', 'sig': {'phase': phase, 'cancelled': True},
+                             'msg': f'{r.repo._slots.qsize()} of {N} slots available after the cancelled {phase} and the end of the process'})
+        return _result(W, viol, probes, case)
+    finally:
+        W.close()
+
+
 def run_case(case):
+    if case.get('cancel'):
+        return run_cancel(case)
     if case.get('followup'):
         return run_followup(case)
     viol = []
